@@ -135,10 +135,11 @@ func (f *fakeConn) reg(dir string) string {
 }
 
 type ctxScenario struct {
-	Kind  string `json:"kind"`  // conn | connctx | pconn
-	Dir   string `json:"dir"`   // r | w
-	Ops   int    `json:"ops"`   // operations by the client: first under c1, the rest under live contexts
-	Feeds int    `json:"feeds"` // how many units the environment may feed
+	Kind     string `json:"kind"`     // conn | connctx | pconn
+	Dir      string `json:"dir"`      // r | w
+	Ops      int    `json:"ops"`      // operations by the client: first under c1, the rest under live contexts
+	Feeds    int    `json:"feeds"`    // how many units the environment may feed
+	Deadline bool   `json:"deadline"` // the first context also has a far deadline
 }
 
 func errClass(err error) string {
@@ -203,6 +204,11 @@ func execCtx(t *testing.T, tr *vrt.Tracer, sc ctxScenario, ex *vrt.Explorer) {
 		tr.Emit(vrt.M{"ev": "reset", "kind": sc.Kind, "dir": sc.Dir})
 		c1, cancel1 := context.WithCancel(context.Background())
 		defer cancel1()
+		if sc.Deadline { // a context that also carries a far deadline must still observe its cancellation
+			var cf context.CancelFunc
+			c1, cf = context.WithTimeout(c1, time.Hour)
+			defer cf()
+		}
 		inflight := -1
 		var wg sync.WaitGroup
 		wg.Add(1)
